@@ -27,10 +27,10 @@ def spec(tier):
         for k in sym:
             f.pop(k)
         obs.append(CH(name=name, harness="c14.write_read", sym=sym, fixed=f, timeout=timeout))
-    vals("values_cells", dict(v0=I(0, 9), k0=I(0, 2)))
-    vals("values_cells_b", dict(v2=I(0, 9), k2=I(0, 2)))
+    vals("values_cells", dict(v0=I(0, 15), k0=I(0, 2)))
+    vals("values_cells_b", dict(v2=I(0, 15), k2=I(0, 2)))
     vals("values_laws", dict(l0=I(0, 6), l1=I(0, 6)))
-    vals("values_arrivals", dict(arr1=I(0, 9), arr2=I(0, 9)))
+    vals("values_arrivals", dict(arr1=I(0, 15), arr2=I(0, 15)))
     vals("values_priorities", dict(prio1=I(1, 3), prio2=I(1, 3)))
     tsym = dict(e0=B, e1=B, e2=B, prio1=I(1, 3), k0=I(0, 2))
     tfix = dict(n1=3, n2=1, prio2=1, l0=0, l1=3, l2=2, l3=6, k1=0, k2=1, k3=2, v0=3, v1=5, v2=8, v3=0, arr1=4, arr2=4, e3=False, e4=False, e5=False)
@@ -43,7 +43,7 @@ def spec(tier):
         property_id="C14", obligations=obs,
         functions=["CSVWorkloadReader._parse_row", "CSVWorkloadReader.batch_by_pipeline", "CSVWorkloadReader.create_pipeline_from_batch",
                    "WorkloadTraceGenerator._pipeline_to_rows", "CSVWorkloadWriter.write_row", "Pipeline.new_operator", "DAG.add_node", "Segment.__init__"],
-        bounds={"operators": "<= 4 (first pipeline, arbitrary DAG) + a chain", "numeric_cells": "menu of 10 values incl. 0, 1e-9, 1e300, 5e-324, 123456789.125", "laws": 7},
+        bounds={"operators": "<= 4 (first pipeline, arbitrary DAG) + a chain", "numeric_cells": "menu of 16 values incl. 0, 1e-9, 1e300, 5e-324, 123456789.125, DBL_MAX, DBL_MIN and four doubles that need 16-17 significant digits", "laws": 7},
         outside=["numeric values outside the menu (decimal text <-> binary64 conversion is CPython C code: M8)", "pipelines with more than 4 operators"],
         assumptions=A_ASSUME + ["M8 numeric cells come from a concrete menu selected by a symbolic index; the DAG, priority and memory-kind dimensions are symbolic"],
         explanation=("CrossHair+z3 over the real writer and reader: a pipeline with a symbolic DAG (edge bit per pair), symbolic priority, per-operator law, memory set/0/unset and numeric "
